@@ -125,12 +125,41 @@ def rule_state_writers(ctx):
                 ctx.ob(cons, True)  # initial state of a fresh connection
                 continue
             vals = state_vals_at(ctx, fn, n, dom)
+            if fn.cls is not None and ctx.program.cls(WSS) in ctx.program.mro(fn.cls) and _server_never_proxy(ctx, S):
+                # role fact: PROXY_CONNECTING is only ever entered under `not self.factory.isServer`
+                vals = vals - {S["STATE_PROXY_CONNECTING"]}
             bad = vals - permitted[tgt] - {tgt}
             ctx.ob(cons, not bad,
                    f"state may move {sorted(name_of[b] for b in bad)} -> {name_of[tgt]} (no dominating guard; "
                    f"reached via a deferred callback or an unguarded call path)", fn.loc(n.ast))
     ctx.instances(count)
     ctx.floor("C05.1-state-writers", 6)
+
+
+def _server_never_proxy(ctx, S):
+    """True iff every writer of STATE_PROXY_CONNECTING is dominated by `not self.factory.isServer` and
+    WebSocketServerFactory.isServer is the class constant True (so the state is unreachable for server roles)."""
+    if hasattr(ctx, "_snp"):
+        return ctx._snp
+    an = get_analysis(ctx)
+    ok = True
+    n = 0
+    for fn in [f for f in hierarchy_funcs(ctx.program, WSP) if not is_test_module(f.module.name)]:
+        if not any(isinstance(x, ast.Attribute) and x.attr == "state" and isinstance(x.ctx, ast.Store) for x in walk_no_defs(fn.node)):
+            continue
+        g, mf, res = an.get(fn)
+        for node, v in find_assign_nodes(g, "state"):
+            if norm.key(v, res) == ("c", S["STATE_PROXY_CONNECTING"]):
+                n += 1
+                if ("truth", "self.factory.isServer", None, False) not in (mf.at(node) or ()):
+                    ok = False
+    try:
+        fac = ctx.program.cls("autobahn.websocket.protocol.WebSocketServerFactory")
+        ok = ok and ctx.program.class_const(fac, "isServer") is True
+    except (KeyError, AnalysisError):
+        ok = False
+    ctx._snp = ok and n >= 1
+    return ctx._snp
 
 
 def rule_close_frame_owner(ctx):
